@@ -409,7 +409,9 @@ fn judge(hist: &Value, t: &Twin, drv: &mut Option<Driver>, sum: &mut Summary, kn
         sum.oracle_violation("execution-failed", &format!("A: {} B: {}", t.a["fatal"], t.b["fatal"]), case); return;
     }
     // ---- property oracle, part 2: logical observations (independent of the model)
-    let strip = |v: &Value| { let mut v = v.clone(); if let Some(o) = v.as_object_mut() { o.remove("cards_created_at"); } v };
+    // not part of the logical state: created_at of extractor-built cards (a clock read, finding), physical payload offsets
+    let strip = |v: &Value| { let mut v = v.clone(); if let Some(o) = v.as_object_mut() { o.remove("cards_created_at"); o.remove("payload_offsets"); } v };
+    if t.a["reopened"]["payload_offsets"] != t.b["reopened"]["payload_offsets"] { sum.branch("payload-offsets-differ"); }
     let mut logical_ok = true;
     if t.a["results"] != t.b["results"] { logical_ok = false; sum.oracle_violation("call-results-differ-between-runs", &format!("A {} B {}", t.a["results"], t.b["results"]), case.clone()); }
     for k in ["live", "reopened"] {
@@ -611,7 +613,7 @@ fn main() {
     }
     let mut rng = Rng::new(args.seed);
     let mut all = corpus();
-    let n = if args.thorough { 260 } else { 14 };
+    let n = if args.thorough { 150 } else { 14 };
     for _ in 0..n { all.push(gen_history(&mut rng)); }
     // several child pairs, so that one process does not run everything (per-process hash seeds, global state)
     let per = if args.thorough { 20 } else { 11 };
